@@ -102,6 +102,19 @@ impl SentPackets {
     }
 }
 
+#[cfg(feature = "quinn_rs_quinn_verif")]
+impl SentPackets {
+    /// (offset, slots.len(), in_flight)
+    pub(super) fn verif_state(&self) -> (u64, usize, usize) {
+        (self.offset, self.slots.len(), self.in_flight)
+    }
+
+    /// Every slot, vacant ones included, in slot order
+    pub(super) fn verif_slots(&self) -> impl Iterator<Item = Option<&SentPacket>> + '_ {
+        self.slots.iter().map(Option::as_ref)
+    }
+}
+
 #[cfg(test)]
 mod tests {
     use super::*;
